@@ -1,5 +1,5 @@
 \* behaviour generation by TLC simulation: random deep behaviours of the closed model (two claims, all atoms)
-CONSTANTS Claims = {"c1", "c2"}  AtomIds = {1, 2, 3, 4, 5, 6, 7, 8, 9, 10, 11, 12, 13, 14, 15, 16}
+CONSTANTS Claims = {"c1", "c2"}  AtomIds = {1, 2, 3, 4, 5, 6, 7, 8, 9, 10, 11, 12, 13, 14, 15, 16, 17, 18, 19, 20}
           Types = {"small", "large"}  Zones = {"zone-a", "zone-b"}  CTs = {"spot", "on-demand"}
           MaxLen = 16  MaxEdits = 6  MaxAtoms = 2  Wk = "none"
 SPECIFICATION Spec
